@@ -9,6 +9,9 @@
 //   c15.try <w> <n> <errs> <op>…    seq_try_join_all; ops r<i>, p (one poll of the TryCollect future)
 //   c15.par <n> <errs> <op>…        SeqJoin::parallel_join; ops r<i>, p
 //   c15.tryp <w> <n> <errs> <op>…   seq_join(w, source).try_collect() over a source that may be Pending; ops s<k>, r<i>, p
+//   c15.hint <try|ctx|par> <shape> <w> <n> <d> <polls>   seq_try_join_all / SeqJoin::try_join / parallel_join over an
+//                                   iterator whose size_hint lower bound is below the item count (shapes exact, filter,
+//                                   flatmap, takewhile, chain<k>); dependencies as in c15.dep; `polls` polls of the future
 // Futures are driven by hand with a no-op waker; every future logs when it is polled.
 #[cfg(not(feature = "multi-threading"))]
 pub mod c15_local {
@@ -195,6 +198,61 @@ pub mod c15_local {
                             }
                         },
                         _ => panic!("harness: unknown op {op}"),
+                    }
+                }
+            }
+            "c15.hint" => {
+                let w: usize = t[3].parse().unwrap();
+                let n: usize = t[4].parse().unwrap();
+                let d: usize = t[5].parse().unwrap();
+                let polls: usize = t[6].parse().unwrap();
+                sh.lock().unwrap().dep = Some((n, d));
+                let mk = {
+                    let sh = sh.clone();
+                    move |id: usize| Task { id, sh: sh.clone() }
+                };
+                let tasks: Vec<Task> = (0..n).map(&mk).collect();
+                let it: Box<dyn Iterator<Item = Task> + Send> = match t[2] {
+                    "exact" => Box::new(tasks.into_iter()),
+                    "filter" => Box::new(tasks.into_iter().filter(|_| true)),
+                    "takewhile" => Box::new(tasks.into_iter().take_while(|_| true)),
+                    "flatmap" => Box::new((0..n).flat_map(move |i| std::iter::once(mk(i)))),
+                    shape if shape.starts_with("chain") => {
+                        let k: usize = shape[5..].parse::<usize>().unwrap().min(n);
+                        let mut head = tasks;
+                        let tail = head.split_off(k);
+                        Box::new(head.into_iter().chain(tail.into_iter().filter(|_| true)))
+                    }
+                    shape => panic!("harness: unknown iterator shape {shape}"),
+                };
+                out.push(format!("lo={}", it.size_hint().0));
+                let active = NonZeroUsize::new(w).unwrap();
+                let mut fut: Option<Pin<Box<dyn Future<Output = Result<Vec<usize>, usize>>>>> = Some(match t[1] {
+                    "try" => Box::pin(seq_try_join_all(active, it)),
+                    "ctx" => Box::pin(Ctx(active).try_join(it)),
+                    "par" => Box::pin(Ctx(active).parallel_join(it)),
+                    api => panic!("harness: unknown api {api}"),
+                });
+                for _ in 0..polls {
+                    match fut.as_mut() {
+                        None => out.push("gone".into()),
+                        Some(f) => {
+                            sh.lock().unwrap().polled.clear();
+                            let mut cx = Context::from_waker(futures::task::noop_waker_ref());
+                            let r = f.as_mut().poll(&mut cx);
+                            let polled = plus(&sh.lock().unwrap().polled);
+                            match r {
+                                Poll::Pending => out.push(format!("P/{polled}")),
+                                Poll::Ready(Ok(v)) => {
+                                    out.push(format!("OK:{}/{polled}", plus(&v)));
+                                    fut = None;
+                                }
+                                Poll::Ready(Err(e)) => {
+                                    out.push(format!("ERR:{e}/{polled}"));
+                                    fut = None;
+                                }
+                            }
+                        }
                     }
                 }
             }
@@ -478,6 +536,47 @@ pub mod c15_local {
                 ops.push("p".into());
             }
             out.push(format!("c15.join {w} {n} {}", ops.join(" ")));
+        }
+        // ---- iterators that under-report their length (size_hint lower bound 0 / 1 / < active):
+        // the window must come from `active` alone, so dependencies up to active-1 positions ahead
+        // never block seq_try_join_all / SeqJoin::try_join; parallel_join has no window at all
+        for s in [
+            "c15.hint try filter 2 2 1 6", "c15.hint ctx filter 3 4 2 10", "c15.hint try chain1 3 5 2 12",
+            "c15.hint try flatmap 4 9 3 20", "c15.hint ctx takewhile 2 3 1 8", "c15.hint par filter 1 4 3 2",
+            "c15.hint try filter 1 3 0 8", "c15.hint try filter 2 0 1 2", "c15.hint try chain2 4 2 3 6",
+        ] {
+            out.push(s.to_string());
+        }
+        for w in [1usize, 2, 3, 4, 5, 8, 16] {
+            let mut ns = vec![0usize, 1, 2, w - 1, w, w + 1, 2 * w + 1, 3 * w];
+            ns.sort_unstable();
+            ns.dedup();
+            for n in ns {
+                let mut ds: Vec<usize> = (0..=w.min(5)).collect();
+                if w > 5 {
+                    ds.extend([w - 2, w - 1, w]);
+                }
+                for d in ds {
+                    let mut shapes: Vec<String> = ["exact", "filter", "flatmap", "takewhile", "chain1"].iter().map(|s| s.to_string()).collect();
+                    if w > 2 {
+                        shapes.push(format!("chain{}", w - 1));
+                    }
+                    for shape in shapes {
+                        for api in ["try", "ctx"] {
+                            if api == "ctx" && shape == "exact" {
+                                continue;
+                            }
+                            out.push(format!("c15.hint {api} {shape} {w} {n} {d} {}", 2 * n + 3));
+                        }
+                    }
+                    // (try_join_all switches to FuturesUnordered above 30 futures, which re-polls only
+                    // futures that woke it; the scripted tasks never do)
+                    if d == w.min(5) && n <= 30 {
+                        out.push(format!("c15.hint par filter {w} {n} {d} 3"));
+                        out.push(format!("c15.hint par chain1 {w} {n} {} 3", n.saturating_sub(1)));
+                    }
+                }
+            }
         }
         out
     }
